@@ -188,11 +188,10 @@ class World:
                 pass
             self.server = None
         if getattr(self, "server_task", None) is not None:
+            # run_server leaves its `async with serve(...)` through wait_closed(), which does not return while a connection
+            # lingers (websockets 10.4 on Python 3.12): bounded wait, then the task is left to the loop's teardown
             self.server_task.cancel()
-            try:
-                await self.server_task
-            except BaseException:
-                pass
+            await asyncio.wait({self.server_task}, timeout=2)
             self.server_task = None
         for t in self.sproxy.tasks:
             if not t.done():
